@@ -77,11 +77,44 @@ func (p *patch) unsafePatchValue() error {
 	funcName := runtime.FuncForPC(originPointer).Name()
 	if IsGenericsFunc(funcName) {
 		innerPointer, err := bytecode.GetInnerFunc(64, originPointer)
-		if err == nil && innerPointer != 0 {
+		// 只有 wrapper 才需要定位到内部的函数体: wrapper 调用的是同一个泛型函数的 shape 函数体;
+		// 目标本身已经是函数体时(比如按符号名找到的 go.shape 函数), 第一个 call 指向的是别的函数, 不能去替换它
+		if err == nil && innerPointer != 0 && sameGenericFunc(funcName, innerPointer) {
 			p.originPtr = innerPointer
 		}
 	}
 	return p.unsafePatchPtr()
+}
+
+// sameGenericFunc 判断 ptr 处的函数和 name 是否为同一个泛型函数(忽略类型实参)
+func sameGenericFunc(name string, ptr uintptr) bool {
+	f := runtime.FuncForPC(ptr)
+	return f != nil && stripTypeArgs(f.Name()) == stripTypeArgs(name)
+}
+
+// stripTypeArgs 去掉函数名中方括号内的类型实参, 比如 pkg.(*G[go.shape.int]).Id => pkg.(*G[]).Id
+func stripTypeArgs(name string) string {
+	out := make([]byte, 0, len(name))
+	depth := 0
+	for i := 0; i < len(name); i++ {
+		switch c := name[i]; {
+		case c == '[':
+			if depth == 0 {
+				out = append(out, c)
+			}
+			depth++
+		case c == ']':
+			if depth > 0 {
+				depth--
+			}
+			if depth == 0 {
+				out = append(out, c)
+			}
+		case depth == 0:
+			out = append(out, c)
+		}
+	}
+	return string(out)
 }
 
 // unsafePatchPtr 不做类型检查
